@@ -87,7 +87,11 @@ where
         let mut job_broker = JobBroker::new(thread_count, close_at);
         job_broker.push(pending);
 
+        #[cfg(getong_stateright_verif)]
+        let verif_ctx = crate::verif_hooks::spawn_ctx();
         for t in 0..thread_count {
+            #[cfg(getong_stateright_verif)]
+            let verif_ctx = verif_ctx.clone();
             let model = Arc::clone(&model);
             let visitor = Arc::clone(&visitor);
             let finish_when = Arc::clone(&finish_when);
@@ -101,6 +105,10 @@ where
                 std::thread::Builder::new()
                     .name(format!("checker-{}", t))
                     .spawn(move || {
+                        #[cfg(getong_stateright_verif)]
+                        let _verif_worker = crate::verif_hooks::enter_worker(&verif_ctx, t);
+                        #[cfg(getong_stateright_verif)]
+                        let mut job_broker = job_broker;
                         log::debug!("{}: Thread started.", t);
                         let mut pending = VecDeque::new();
                         loop {
@@ -154,6 +162,8 @@ where
                             }
 
                             // Step 2: Share work.
+                            #[cfg(getong_stateright_verif)]
+                            crate::verif_hooks::yield_point("bfs.before_share");
                             if pending.len() > 1 && thread_count > 1 {
                                 job_broker.split_and_push(&mut pending);
                             }
@@ -193,7 +203,11 @@ where
 
         let mut current_max_depth = global_max_depth.load(Ordering::Relaxed);
         let mut actions = Vec::new();
+        #[cfg(getong_stateright_verif)]
+        let mut max_count = crate::verif_hooks::block_size(max_count);
         loop {
+            #[cfg(getong_stateright_verif)]
+            crate::verif_hooks::yield_point("bfs.block_iteration");
             // Done if reached max count.
             if max_count == 0 {
                 return;
@@ -299,6 +313,8 @@ where
                 // that it holds in the path leading to the second visit -- another
                 // possible false-negative.
                 let next_fingerprint = fingerprint(&next_state);
+                #[cfg(getong_stateright_verif)]
+                crate::verif_hooks::yield_point("bfs.before_insert");
                 if let Entry::Vacant(next_entry) = generated.entry(next_fingerprint) {
                     next_entry.insert(Some(state_fp));
                 } else {
